@@ -38,7 +38,7 @@ META = {
     },
 }
 CASES = {'quick': 1200, 'thorough': 50000}
-SECONDS = {'quick': 60, 'thorough': 1500}
+SECONDS = {'quick': 60, 'thorough': 600}
 
 
 def normalise(model, lang):
